@@ -79,7 +79,7 @@ def run(tier, chk):
         # every base form (one state per opcode row and operand form: MaxDev = 0) plus a sample of the one-deviation variants
         base = sorted(set(ia32space.gen(0, False, None, chk)['done']))
         rest = sorted(set(hexes) - set(base))
-        hexes = sorted(set(base) | set(rnd.sample(rest, min(len(rest), 20000))))
+        hexes = sorted(set(base) | set(ia32space.stratified(rest, rnd, 20000)))      # every (prefix set, map, ModRM mod/rm, SIB base) stratum
     recs = observe(hexes)
     verdicts, cnt = judge(chk, recs)
     report(chk, recs, verdicts)
